@@ -9,6 +9,9 @@ import importlib
 ctx = core.Ctx("C16", "quick", 20260929)
 ctx.no_proof = True
 ctx.mod = importlib.import_module("harness.props.c16")
+if os.environ.get("WIPTREE"):
+    core.THEORIES = os.environ["WIPTREE"]
+    ctx.ensure_built = lambda header: None
 ctx.mod.run(ctx)
 print("failures", len(ctx.failures), "breaks", len(ctx.breaks), "known", {k: v["n"] for k, v in ctx.known_seen.items()})
 seen = set()
